@@ -17,6 +17,8 @@
 (*   dupkey one response key selected twice, by every pair of fields of    *)
 (*          Query and of A with a selection set that fits (lists of        *)
 (*          different lengths, objects against lists and leaves, nulls)    *)
+(*   indef  input object fields whose default includes a value of the      *)
+(*          field's own type                                               *)
 (*   vars   (declared variable type) x (default) x (place of use); the     *)
 (*          variable maps range over the JSON-shaped values of depth <= 2  *)
 (*   refl   fields with arguments x every state of every argument          *)
@@ -98,6 +100,17 @@ ReflCases ==
   {[fam |-> "refl", ph |-> "case", lang |-> "exe", form |-> ReflDoc(af, sts, ex), sep |-> "sp", nm |-> 0] :
       <<af, sts>> \in UNION {{<<a, s>> : s \in [1..Len(a[3]) -> ArgStates]} : a \in ArgFields}, ex \in BOOLEAN}
 
+\* ---------------------------------------------------------------- family indef
+\* input object fields whose default is (or pulls in) a value of the field's own input type
+InDefTypes == { <<"In">>, <<"[", "In", "]">>, <<"In", "!">>, <<"[", "In", "!", "]">>, <<"T">> }
+InDefVals == { <<"{", "}">>, <<"{", "a", ":", "{", "}", "}">>, <<"[", "{", "}", "]">>, <<"[", "]">>, <<"null">>, <<"{", "a", ":", "null", "}">>, <<"1">>,
+               <<"{", "n", ":", "1", "}">>, <<"{", "b", ":", "{", "}", "}">> }
+InDefCases ==
+  {[fam |-> "indef", ph |-> "case", lang |-> "sdl", sep |-> "sp", nm |-> 0,
+    form |-> <<"input", "In", "{", "a", ":">> \o ty \o <<"=">> \o dv \o <<"n", ":", "Int", "}">> \o tail] :
+      ty \in InDefTypes, dv \in InDefVals,
+      tail \in { <<>>, <<"input", "T", "{", "b", ":", "In", "=", "{", "}", "}">>, <<"type", "Query", "{", "a", "(", "x", ":", "In", ")", ":", "Int", "}">> }}
+
 \* ---------------------------------------------------------------- family dupkey
 QFields == { <<"title">>, <<"bad">>, <<"grid">>, <<"a", "{", "n", "}">>, <<"nul", "{", "n", "}">>, <<"items", "{", "n", "}">>,
              <<"items", "{", "kids", "{", "n", "}", "}">>, <<"named", "{", "name", "}">>, <<"any", "{", "__typename", "}">>,
@@ -121,6 +134,7 @@ PickLang == /\ cs.ph = "fam"
                \/ cs.fam = "frag" /\ cs' \in {[fam |-> "frag", ph |-> "case", lang |-> "exe", form |-> RenderDoc(d), doc |-> d, sep |-> "sp", nm |-> 0] : d \in Docs(Rich)}
                \/ cs.fam = "frag3" /\ cs' \in {[fam |-> "frag3", ph |-> "case", lang |-> "exe", form |-> RenderDoc(d), doc |-> d, sep |-> "sp", nm |-> 0] : d \in Docs3}
                \/ cs.fam = "dupkey" /\ cs' \in DupCases
+               \/ cs.fam = "indef" /\ cs' \in InDefCases
                \/ cs.fam = "vars" /\ cs' \in VarCases
                \/ cs.fam = "refl" /\ cs' \in ReflCases
 
